@@ -48,4 +48,8 @@ def check(run):
         "MaxInFlight != MaxPending (2/5, 5/2, 1/3, 3/1): a response of MaxPending pages that nobody reads before the last one has arrived must be "
         "delivered completely and in order (verdicts delivery-failed, wrong-pages, last-not-complete). "
         "non-trivial = at least one request accepted and at least one other kind of outcome; distinct = distinct (N, maxPending, mode, ops)")
+    run.coverage["rule"] += (
+        " Response frames of the histories take every shape the codec supports (DSE v1 / v2 pages with and without paging state, new result "
+        "metadata id, column specifications, page numbers 1..1000; Void, READY, plain Rows, ERROR as final frames) and are encoded and decoded by "
+        "the real frame codec before delivery; isLastFrame's answer is compared with LastContinuousPage as sent (verdict last-frame-misjudged).")
     il.verdict(run, "C10", broken, findings)
